@@ -32,19 +32,29 @@ ASSUMPTIONS = [
     'extension point); file readers are covered by C14',
 ]
 _REG = ['%s/%s' % (a, b) for a in ('Tbelow', 'Tin', 'Tabove') for b in ('Pbelow', 'Pin', 'Pabove')]
-REQUIRED = {('region:' + r): 0.02 for r in _REG}
+REQUIRED = {('region:' + r): 0.03 for r in _REG}
 
-KINDS = ['below', 'below', 'below', 'above', 'above', 'above', 'inside', 'inside', 'node', 'ulp-', 'ulp+']
+
+
+REGIONS = [('above', 'below'), ('below', 'above'), ('below', 'below'), ('above', 'above'),
+           ('in', 'below'), ('in', 'above'), ('below', 'in'), ('above', 'in'), ('in', 'in'), ('in', 'in')]
+INKINDS = ['inside', 'node', 'ulp-', 'ulp+', 'inside']
 
 
 @st.composite
-def _axis_point(draw):
-    return [draw(st.sampled_from(KINDS)), draw(st.integers(0, 5)),
-            draw(st.floats(0.01, 0.99)), draw(st.floats(0.0, 1.0))]
+def _point(draw):
+    """one draw picks the region (mixed corners first), then the in-grid flavour per axis"""
+    tk, pk = draw(st.sampled_from(REGIONS))
+    res = []
+    for k in (tk, pk):
+        kind = draw(st.sampled_from(INKINDS)) if k == 'in' else k
+        res.append([kind, draw(st.integers(0, 5)), draw(st.floats(0.01, 0.99)), draw(st.floats(0.0, 1.0))])
+    return res
 
 
 @st.composite
 def _case(draw):
+    pt = draw(_point())
     nT = draw(st.integers(1, 6))
     nP = draw(st.integers(1, 6))
     nW = draw(st.integers(1, 6))
@@ -72,7 +82,7 @@ def _case(draw):
         sub = [a, b]
     return {'T0': T0, 'dT': dT, 'lP0': P0, 'dlP': dP, 'nW': nW, 'base': base,
             'delta': delta, 'ng': ng, 'mode': mode, 'sub': sub,
-            'tpt': draw(_axis_point()), 'ppt': draw(_axis_point())}
+            'tpt': pt[0], 'ppt': pt[1]}
 
 
 def strategy(tier):
